@@ -15,15 +15,20 @@
 (* predicates, or a bare id()/key() call.  The expression INSIDE a predicate and the id()/key()   *)
 (* call are evaluated with XPathSem!Eval - the evaluator is not transcribed again.                *)
 (* Scores are abstracted to BOOLEAN (eMatchScoreNone = FALSE): only "matches or not" is modelled. *)
-(* The algorithm is NOT the definition (XPathSem!Matches); where it is known to differ the class  *)
-(* is named KD_<key> (keys of /verif/known_findings.jsonl and known_findings.d/C09.jsonl);        *)
-(* MC_Pattern checks that they agree everywhere else, Trace_C09impl compares the REAL matcher     *)
-(* with ImplMatchSet case by case.                                                               *)
-(* Limits of the transcription: the position cache (FindStep) is modelled for the predicates of   *)
-(* the match step itself; nested predicates inside a predicate expression are evaluated by the    *)
-(* definition, and a single predicate that calls position(), then evaluates a location path, then *)
-(* calls position() again is given one position value.  An in-place predicate sees position 1 of  *)
-(* 1 (it never calls position()/last() itself: such predicates go through handleFoundIndex).      *)
+(* The algorithm is NOT the definition (XPathSem!Matches); MC_Pattern checks that the two agree   *)
+(* on a bounded family.  Where the algorithm is known to differ, the class is named KD_<key>      *)
+(* (keys of /verif/known_findings.jsonl with status "known") and excluded there; Trace_C09impl    *)
+(* compares the REAL matcher with ImplMatchSet case by case.  At present NO deviation is named:   *)
+(* the six classes found so far (descendantNoBacktrack, anchorLostAfterDescendant,               *)
+(* childNodeTestAcceptsRoot, attributeNodeTestAcceptsNonAttributes,                              *)
+(* attributeStepPositionalPredicate, stalePositionAcrossPredicates) were repaired in the code and *)
+(* this module transcribes the repaired algorithm.                                                *)
+(* Limits of the transcription: nested predicates inside a predicate expression are evaluated by  *)
+(* the definition.  An in-place predicate sees position 1 of 1 (it never calls position()/last()  *)
+(* itself: such predicates go through handleFoundIndex).  The position cache of                   *)
+(* XPathExecutionContextDefault (m_cachedPosition) is not modelled: XPath::predicates() re-pushes  *)
+(* the context node list after every predicate that filtered it, which clears the cache, and      *)
+(* within one pass over an unchanged list a cached position is the position.                      *)
 EXTENDS XPathSem
 
 Null == <<0, 0, 0>>                                  \* the null XalanNode*
@@ -107,65 +112,38 @@ ImplNodeTest(F, test, cls, n) ==
     [] OTHER              -> FALSE                               \* testDefault
 
 (* ========================= forward re-evaluation of one match step ========================== *)
-(* XPathExecutionContextDefault::getContextNodeListPosition keeps the position of the LAST node   *)
-(* it was asked about (m_cachedPosition); the cache is cleared when a context node list is pushed *)
-(* or popped, but XPath::predicates() shrinks the current list in place between two predicates    *)
-(* without clearing it: a node that was the last one position() was asked about under predicate   *)
-(* j still reports its OLD position under predicate j+1.  c.pcache switches the cache on (the     *)
-(* algorithm as it is) or off (used only to say where the cache matters, KD_stalePosition...).    *)
-NoCache == [node |-> Null, idx |-> 0]
-WithCache(c, on) == [pcache |-> on] @@ c
-(* the last thing evaluating e does to the cache: "set" - position() was called; "clear" - a      *)
-(* location path or filter expression was evaluated (XPath::step pushes and pops a context node   *)
-(* list); "none".  Operands left to right, and/or short-circuit.                                  *)
-RECURSIVE CacheEvent(_, _), ArgsEvent(_, _, _)
-Later(a, b) == IF b = "none" THEN a ELSE b
-ArgsEvent(args, i, c) == IF i > Len(args) THEN "none" ELSE Later(CacheEvent(args[i], c), ArgsEvent(args, i + 1, c))
-CacheEvent(e, c) ==
-  CASE e.op = "fn"  -> IF e.name = "position" THEN "set" ELSE ArgsEvent(e.args, 1, c)
-    [] e.op = "bin" -> IF e.o \in {"or", "and"}
-                       THEN LET l == Eval(e.a, c) IN
-                            IF Bad(l) \/ ToBool(l) = (e.o = "or") THEN CacheEvent(e.a, c)
-                            ELSE Later(CacheEvent(e.a, c), CacheEvent(e.b, c))
-                       ELSE Later(CacheEvent(e.a, c), CacheEvent(e.b, c))
-    [] e.op = "neg" -> CacheEvent(e.a, c)
-    [] e.op \in {"path", "filter"} -> "clear"
-    [] OTHER -> "none"
-(* one predicate over the current list (the loop of XPath::predicates), threading the cache *)
-RECURSIVE PredPass(_, _, _, _, _)
-PredPass(seq, p, k, cache, c) ==
-  IF k > Len(seq) THEN [kept |-> <<>>, cache |-> cache, bad |-> FALSE]
+(* one predicate over the current list (the loop of XPath::predicates) *)
+RECURSIVE PredPass(_, _, _, _)
+PredPass(seq, p, k, c) ==
+  IF k > Len(seq) THEN [kept |-> <<>>, bad |-> FALSE]
   ELSE LET x == seq[k]
-           posk == IF c.pcache /\ cache.node = x THEN cache.idx ELSE k     \* getContextNodeListPosition
-           cc == [c EXCEPT !.n = x, !.pos = posk, !.size = Len(seq)]
+           cc == [c EXCEPT !.n = x, !.pos = k, !.size = Len(seq)]
            v == Eval(p, cc)
-           ev == CacheEvent(p, cc)
-           cache2 == CASE ev = "set" -> [node |-> x, idx |-> posk] [] ev = "clear" -> NoCache [] OTHER -> cache
-           rest == PredPass(seq, p, k + 1, cache2, c)
+           rest == PredPass(seq, p, k + 1, c)
            keep == ~Bad(v) /\ (IF v.t = "num" THEN NumEq(v.v, FromInt(k)) ELSE ToBool(v))   \* i + 1 != pred->num() || !pred->boolean()
-       IN [kept |-> (IF keep THEN <<x>> ELSE <<>>) \o rest.kept, cache |-> rest.cache, bad |-> Bad(v) \/ rest.bad]
+       IN [kept |-> (IF keep THEN <<x>> ELSE <<>>) \o rest.kept, bad |-> Bad(v) \/ rest.bad]
 (* XPath::predicates: predicate after predicate; a number LITERAL is not evaluated, it indexes    *)
 (* the list; nothing is evaluated once the list is empty                                          *)
-RECURSIVE Predicates(_, _, _, _, _)
-Predicates(seq, preds, j, cache, c) ==
+RECURSIVE Predicates(_, _, _, _)
+Predicates(seq, preds, j, c) ==
   IF j > Len(preds) THEN seq
   ELSE IF Len(seq) = 0 THEN <<>>
   ELSE LET p == preds[j] IN
        IF p.op = "num"
        THEN LET ok == p.v.k = "fin" /\ ~p.v.neg /\ p.v.m > 0 /\ p.v.m % Scale = 0 /\ p.v.m \div Scale <= Len(seq) IN
-            Predicates(IF ok THEN <<seq[p.v.m \div Scale]>> ELSE <<>>, preds, j + 1, cache, c)
-       ELSE LET r == PredPass(seq, p, 1, cache, c) IN
-            IF r.bad THEN <<>> ELSE Predicates(r.kept, preds, j + 1, r.cache, c)
-(* XPath::step(parent, startOpPos) for a match op code: eMATCH_ATTRIBUTE -> findAttributes,       *)
-(* eMATCH_*_ANCESTOR -> findChildren, no step recursion; the NodeTester is built with the MATCH   *)
-(* op code as step type (so a NAME test on the attribute list uses the ELEMENT tests and finds    *)
-(* nothing); a fresh context node list is pushed (cache cleared); then predicates().              *)
+            Predicates(IF ok THEN <<seq[p.v.m \div Scale]>> ELSE <<>>, preds, j + 1, c)
+       ELSE LET r == PredPass(seq, p, 1, c) IN
+            IF r.bad THEN <<>> ELSE Predicates(r.kept, preds, j + 1, c)
+(* XPath::step(parent, startOpPos) for a match op code: eMATCH_ATTRIBUTE -> findAttributes (the   *)
+(* NodeTester is always built for the attribute axis), eMATCH_*_ANCESTOR -> findChildren (tester  *)
+(* built with the MATCH op code: the element tests), no step recursion; a fresh context node list *)
+(* is pushed; then predicates().                                                                  *)
 FindStep(cs, parent, c) ==
   LET F == c.f
       cand == IF cs.code = "MATCH_ATTRIBUTE"
-              THEN {x \in Axis(F, "attribute", parent) : ImplNodeTest(F, cs.test, "elem", x)}
+              THEN {x \in Axis(F, "attribute", parent) : ImplNodeTest(F, cs.test, "attr", x)}
               ELSE {x \in Axis(F, "child", parent) : ImplNodeTest(F, cs.test, "elem", x)}
-  IN Range(Predicates(DocOrderSeq(cand), cs.preds, 1, NoCache, c))
+  IN Range(Predicates(DocOrderSeq(cand), cs.preds, 1, c))
 HandleFoundIndex(cs, n, c) ==
   LET p == ParentOf(c.f, n) IN IF p = Null THEN FALSE ELSE n \in FindStep(cs, p, c)
 (* (NDEBUG) only looks whether the re-evaluated step found anything *)
@@ -195,21 +173,37 @@ DoStepPredicate(cs, n, j, score, c) ==
 
 (* ================================== XPath::stepPattern ====================================== *)
 (* seq: compiled steps, k: the step at opPos, ctx0: the node getMatchScore was asked about,       *)
-(* holder0: scoreHolder on entry.  Result [node |-> returned context (Null = 0), holder |->      *)
-(* scoreHolder on exit].                                                                          *)
-RECURSIVE StepPattern(_, _, _, _, _)
-StepPattern(seq, k, ctx0, holder0, c) ==
+(* holder0: scoreHolder on entry, anc0: theAncestor on entry.  Result [node |-> returned context  *)
+(* (Null = 0), holder |-> scoreHolder on exit, anc |-> theAncestor on exit].                      *)
+(* theAncestor is the backtracking protocol over '//': a step that matches any ancestor (it is    *)
+(* followed by '//') reports the ancestor it found; when a step further left fails, the caller    *)
+(* that started the search (the next any-ancestor step to the left, or locationPathPattern) calls  *)
+(* again with that node and the any-ancestor step continues ABOVE it without re-running the steps *)
+(* to its right.                                                                                  *)
+IsAnyAncestor(code) == code \in {"MATCH_ANY_ANCESTOR", "MATCH_ANY_ANCESTOR_WITH_PREDICATE"}
+RECURSIVE StepPattern(_, _, _, _, _, _), RetryLoop(_, _, _, _, _, _)
+(* do { r = stepPattern(.., theAncestor) } while (r failed && theAncestor != 0) *)
+RetryLoop(seq, k, ctx0, holder0, anc0, c) ==
+  LET r == StepPattern(seq, k, ctx0, holder0, anc0, c) IN
+  IF r.node = Null /\ r.anc # Null THEN RetryLoop(seq, k, ctx0, r.holder, r.anc, c) ELSE r
+StepPattern(seq, k, ctx0, holder0, anc0, c) ==
   LET F == c.f
       cs == seq[k]
       hasNext == k < Len(seq)                                   \* nextStepType # eENDOP
       nextCode == IF hasNext THEN seq[k + 1].code ELSE "ENDOP"
-      rec == StepPattern(seq, k + 1, ctx0, holder0, c)          \* "continue step via recursion": rightmost step first
+      any == IsAnyAncestor(cs.code)                             \* fAnyAncestor
+      \* "continue step via recursion": rightmost step first.  [node, holder, anc] after that part
+      right == IF ~hasNext THEN [node |-> ctx0, holder |-> holder0, anc |-> anc0]
+               ELSE IF ~any THEN StepPattern(seq, k + 1, ctx0, holder0, anc0, c)             \* theAncestor is passed through
+               ELSE IF anc0 # Null THEN [node |-> anc0, holder |-> TRUE, anc |-> Null]       \* resume above the ancestor found last
+               ELSE LET r == RetryLoop(seq, k + 1, ctx0, holder0, Null, c) IN                \* own search over the next any-ancestor step
+                    [node |-> r.node, holder |-> r.holder, anc |-> Null]
       ctx1 == IF ~hasNext THEN ctx0
-              ELSE IF nextCode # "MATCH_ANY_ANCESTOR_WITH_FUNCTION_CALL" THEN ParentOf(F, rec.node) ELSE rec.node
+              ELSE IF nextCode # "MATCH_ANY_ANCESTOR_WITH_FUNCTION_CALL" THEN ParentOf(F, right.node) ELSE right.node
       holder1 == IF hasNext THEN TRUE ELSE holder0               \* scoreHolder = eMatchScoreOther
   IN
-  IF hasNext /\ (rec.node = Null \/ ~rec.holder) THEN [node |-> Null, holder |-> FALSE]   \* big ugly return
-  ELSE IF ctx1 = Null THEN [node |-> Null, holder |-> FALSE]                              \* no parent for this step
+  IF hasNext /\ (right.node = Null \/ ~right.holder) THEN [node |-> Null, holder |-> FALSE, anc |-> right.anc]   \* big ugly return
+  ELSE IF ctx1 = Null THEN [node |-> Null, holder |-> FALSE, anc |-> right.anc]                                  \* no parent for this step
   ELSE
   LET sw ==   \* the switch: [score, node (context afterwards), preds (fDoPredicates)]
         CASE cs.code = "MATCH_ANY_ANCESTOR_WITH_FUNCTION_CALL" ->
@@ -223,104 +217,53 @@ StepPattern(seq, k, ctx0, holder0, c) ==
                     IF i = 0 THEN [score |-> FALSE, node |-> Null, preds |-> TRUE]
                     ELSE [score |-> TRUE, node |-> ParentOf(F, ch[i]), preds |-> TRUE]      \* context is moved once more after the hit
                ELSE [score |-> ctx1 \in nl, node |-> ctx1, preds |-> TRUE]
-          [] cs.code = "FROM_ROOT" ->
-               IF KindOf(F, ctx1) = "root" THEN [score |-> TRUE, node |-> ctx1, preds |-> TRUE]
-               ELSE IF nextCode \in {"MATCH_ANY_ANCESTOR", "MATCH_ANY_ANCESTOR_WITH_PREDICATE"}
-               THEN LET ch == UpChain(F, ctx1)                   \* walks up until testRoot succeeds: it always does
-                        i == FirstIdx(ch, LAMBDA x : ImplNodeTest(F, cs.test, "elem", x)) IN
-                    IF i = 0 THEN [score |-> FALSE, node |-> Null, preds |-> TRUE]
-                    ELSE [score |-> TRUE, node |-> ch[i], preds |-> TRUE]
-               ELSE [score |-> FALSE, node |-> ctx1, preds |-> TRUE]
-          [] cs.code = "MATCH_ATTRIBUTE" ->                      \* tested whatever the node type of the context is
-               [score |-> ImplNodeTest(F, cs.test, "attr", ctx1), node |-> ctx1, preds |-> TRUE]
-          [] cs.code \in {"MATCH_ANY_ANCESTOR", "MATCH_ANY_ANCESTOR_WITH_PREDICATE"} ->
+          [] cs.code = "FROM_ROOT" ->                            \* nothing else: an ancestor that is not a child of the root is retried by the caller
+               [score |-> KindOf(F, ctx1) = "root", node |-> ctx1, preds |-> TRUE]
+          [] cs.code = "MATCH_ATTRIBUTE" ->                      \* only an attribute is tested
+               [score |-> KindOf(F, ctx1) = "attr" /\ ImplNodeTest(F, cs.test, "attr", ctx1), node |-> ctx1, preds |-> TRUE]
+          [] any ->
                IF KindOf(F, ctx1) = "attr" THEN [score |-> FALSE, node |-> ctx1, preds |-> FALSE]
-               ELSE LET ch == UpChain(F, ctx1)                   \* the NEAREST ancestor-or-self passing test and predicates is taken
-                        i == FirstIdx(ch, LAMBDA x : ImplNodeTest(F, cs.test, "elem", x) /\ DoStepPredicate(cs, x, 1, TRUE, c)) IN
+               ELSE LET ch == UpChain(F, ctx1)                   \* the NEAREST ancestor-or-self passing test and predicates; the root only for the leading '//'
+                        i == FirstIdx(ch, LAMBDA x : /\ (cs.code = "MATCH_ANY_ANCESTOR_WITH_PREDICATE" \/ KindOf(F, x) # "root")
+                                                     /\ ImplNodeTest(F, cs.test, "elem", x) /\ DoStepPredicate(cs, x, 1, TRUE, c)) IN
                     IF i = 0 THEN [score |-> FALSE, node |-> Null, preds |-> FALSE]
                     ELSE [score |-> TRUE, node |-> ch[i], preds |-> FALSE]
           [] cs.code = "MATCH_IMMEDIATE_ANCESTOR" ->
-               [score |-> KindOf(F, ctx1) # "attr" /\ ImplNodeTest(F, cs.test, "elem", ctx1), node |-> ctx1, preds |-> TRUE]
+               [score |-> KindOf(F, ctx1) \notin {"attr", "root"} /\ ImplNodeTest(F, cs.test, "elem", ctx1), node |-> ctx1, preds |-> TRUE]
       score2 == IF sw.preds /\ sw.score THEN DoStepPredicate(cs, sw.node, 1, sw.score, c) ELSE sw.score
       holder2 == IF ~holder1 \/ ~score2 THEN score2 ELSE holder1
-  IN [node |-> IF score2 THEN sw.node ELSE Null, holder |-> holder2]
+      anc2 == IF any THEN (IF score2 THEN sw.node ELSE Null) ELSE right.anc     \* "this is where to continue"
+  IN [node |-> IF score2 THEN sw.node ELSE Null, holder |-> holder2, anc |-> anc2]
 
-(* locationPathPattern / doGetMatchScore / getMatchScore (c carries pcache) *)
+(* locationPathPattern (the retry loop at the top) / doGetMatchScore / getMatchScore *)
 ImplMatchesAlt(alt, n, c) ==
-  LET seq == Compile(alt) IN Len(seq) > 0 /\ StepPattern(seq, 1, n, FALSE, c).holder
-ImplMatchesC(P, n, c) == LET as == Alts(P) IN \E i \in 1..Len(as) : ImplMatchesAlt(as[i], n, c)
-ImplMatches(P, n, c0) == ImplMatchesC(P, n, WithCache(c0, TRUE))
+  LET seq == Compile(alt) IN Len(seq) > 0 /\ RetryLoop(seq, 1, n, FALSE, Null, c).holder
+ImplMatches(P, n, c) == LET as == Alts(P) IN \E i \in 1..Len(as) : ImplMatchesAlt(as[i], n, c)
 ImplMatchSet(P, d, c0) == {n \in {Node(d, i) : i \in 1..c0.f[d].n} : ImplMatches(P, n, c0)}
 
 (* ================================ known deviations ========================================== *)
-(* Observation points of the walk for node n: the context with which step k's switch is entered  *)
-(* (ok = the steps to its right matched and the context has the parent that is needed), and the  *)
-(* node at which step k itself matched (Null if it did not).                                      *)
+(* A class of inputs on which the algorithm is KNOWN to differ from the definition is described   *)
+(* by a predicate KD_<key>(P, n, c) (key = the key of the known_findings entry), listed in KDKeys *)
+(* and in KDExtraKeys (the algorithm accepts, the definition does not) and/or KDMissingKeys, and   *)
+(* given a witness in MC_Pattern.  Observation points for writing such predicates: the context    *)
+(* with which step k's switch is entered on the first attempt, and the node at which step k       *)
+(* itself matched.  None is needed at present.                                                    *)
 StepEntry(seq, k, n, c) ==
   IF k = Len(seq) THEN [ok |-> TRUE, ctx |-> n]
-  ELSE LET r == StepPattern(seq, k + 1, n, FALSE, c) IN
+  ELSE LET r == StepPattern(seq, k + 1, n, FALSE, Null, c) IN
        IF r.node = Null \/ ~r.holder THEN [ok |-> FALSE, ctx |-> Null]
        ELSE LET x == IF seq[k + 1].code # "MATCH_ANY_ANCESTOR_WITH_FUNCTION_CALL" THEN ParentOf(c.f, r.node) ELSE r.node IN
             [ok |-> x # Null, ctx |-> x]
-StepExit(seq, k, n, c) == StepPattern(seq, k, n, FALSE, c).node
+StepExit(seq, k, n, c) == StepPattern(seq, k, n, FALSE, Null, c).node
 SomeStep(P, Cond(_, _)) == LET as == Alts(P) IN
   \E i \in 1..Len(as) : LET seq == Compile(as[i]) IN \E k \in 1..Len(seq) : Cond(seq, k)
 
-(* no backtracking over '//': the step left of '//' had more than one candidate ancestor, only   *)
-(* the nearest one is ever tried against what is further left                                    *)
-KD_descendantNoBacktrack(P, n, c0) == LET c == WithCache(c0, TRUE) IN
-  SomeStep(P, LAMBDA seq, k :
-     /\ k > 1 /\ seq[k].code = "MATCH_ANY_ANCESTOR"
-     /\ LET e == StepEntry(seq, k, n, c) IN
-        /\ e.ok /\ KindOf(c.f, e.ctx) # "attr"
-        /\ Cardinality({x \in Range(UpChain(c.f, e.ctx)) :
-                          ImplNodeTest(c.f, seq[k].test, "elem", x) /\ DoStepPredicate(seq[k], x, 1, TRUE, c)}) >= 2)
-(* '/x//...': eFROM_ROOT reached from a node that is not a child of the document walks up to the *)
-(* document instead of failing                                                                    *)
-KD_anchorLostAfterDescendant(P, n, c0) == LET c == WithCache(c0, TRUE) IN
-  SomeStep(P, LAMBDA seq, k :
-     /\ k = 1 /\ Len(seq) >= 2 /\ seq[1].code = "FROM_ROOT" /\ seq[2].code = "MATCH_ANY_ANCESTOR"
-     /\ LET e == StepEntry(seq, 1, n, c) IN e.ok /\ KindOf(c.f, e.ctx) # "root")
-(* a child step with the node test node() matched AT the document node *)
-KD_childNodeTestAcceptsRoot(P, n, c0) == LET c == WithCache(c0, TRUE) IN
-  SomeStep(P, LAMBDA seq, k :
-     /\ seq[k].code \in {"MATCH_IMMEDIATE_ANCESTOR", "MATCH_ANY_ANCESTOR"} /\ seq[k].test.t = "node"
-     /\ LET x == StepExit(seq, k, n, c) IN x # Null /\ KindOf(c.f, x) = "root")
-(* an attribute step with a node-TYPE test (node(), text(), comment(), processing-instruction()) *)
-(* accepted a node that is not an attribute                                                       *)
-KD_attributeNodeTestAcceptsNonAttributes(P, n, c0) == LET c == WithCache(c0, TRUE) IN
-  SomeStep(P, LAMBDA seq, k :
-     /\ seq[k].code = "MATCH_ATTRIBUTE" /\ seq[k].test.t \in {"node", "text", "comment", "pi"}
-     /\ LET e == StepEntry(seq, k, n, c) IN
-        e.ok /\ KindOf(c.f, e.ctx) # "attr" /\ ImplNodeTest(c.f, seq[k].test, "attr", e.ctx))
-(* an attribute step with a NAME test and a predicate that goes through handleFoundIndex: the    *)
-(* re-evaluated step tests the attributes with the element tests and finds nothing                *)
-KD_attributeStepPositionalPredicate(P, n, c0) == LET c == WithCache(c0, TRUE) IN
-  SomeStep(P, LAMBDA seq, k :
-     /\ seq[k].code = "MATCH_ATTRIBUTE" /\ seq[k].test.t \in {"name", "any", "nsany"}
-     /\ LET e == StepEntry(seq, k, n, c) IN
-        /\ e.ok /\ ImplNodeTest(c.f, seq[k].test, "attr", e.ctx)
-        /\ \E j \in 1..Len(seq[k].preds) : PredIndexed(seq[k].preds[j], e.ctx, c))
-
-(* the stale position cache (see FindStep) changed the answer for n: with a fresh position for    *)
-(* every predicate the same algorithm answers differently                                         *)
-KD_stalePositionAcrossPredicates(P, n, c0) ==
-  ImplMatchesC(P, n, WithCache(c0, TRUE)) # ImplMatchesC(P, n, WithCache(c0, FALSE))
-
-KDKeys == <<"descendantNoBacktrack", "anchorLostAfterDescendant", "childNodeTestAcceptsRoot",
-            "attributeNodeTestAcceptsNonAttributes", "attributeStepPositionalPredicate", "stalePositionAcrossPredicates">>
-KD(key, P, n, c) ==
-  CASE key = "descendantNoBacktrack"                 -> KD_descendantNoBacktrack(P, n, c)
-    [] key = "anchorLostAfterDescendant"             -> KD_anchorLostAfterDescendant(P, n, c)
-    [] key = "childNodeTestAcceptsRoot"              -> KD_childNodeTestAcceptsRoot(P, n, c)
-    [] key = "attributeNodeTestAcceptsNonAttributes" -> KD_attributeNodeTestAcceptsNonAttributes(P, n, c)
-    [] key = "attributeStepPositionalPredicate"      -> KD_attributeStepPositionalPredicate(P, n, c)
-    [] key = "stalePositionAcrossPredicates"         -> KD_stalePositionAcrossPredicates(P, n, c)
+KDKeys == <<>>
+KD(key, P, n, c) == FALSE                            \* CASE key = "..." -> KD_...(P, n, c) [] ...
 (* direction of each class: a false positive (the algorithm accepts, the definition does not) or *)
 (* a false negative                                                                              *)
-KDExtraKeys   == {"anchorLostAfterDescendant", "childNodeTestAcceptsRoot", "attributeNodeTestAcceptsNonAttributes",
-                  "stalePositionAcrossPredicates"}
-KDMissingKeys == {"descendantNoBacktrack", "attributeStepPositionalPredicate", "stalePositionAcrossPredicates"}
+KDExtraKeys   == {}
+KDMissingKeys == {}
 KDKeysOf(P, n, c) == {key \in Range(KDKeys) : KD(key, P, n, c)}
 (* the classes that explain the disagreement at node n, given what the algorithm answered there *)
 KDExplains(P, n, c, implSays) == {key \in (IF implSays THEN KDExtraKeys ELSE KDMissingKeys) : KD(key, P, n, c)}
